@@ -705,6 +705,17 @@ func main() {
 		}
 		return true, fmt.Sprintf("%d reads equal the wrapped graph's answers", n)
 	})
+	r.Replayer("store", func(raw json.RawMessage) (bool, string) {
+		var c storeCase
+		if err := json.Unmarshal(raw, &c); err != nil {
+			return false, err.Error()
+		}
+		n, d := runStoreOps(c.Ops, grid(1))
+		if d != "" {
+			return false, d
+		}
+		return true, fmt.Sprintf("%d answers equal the wrapped driver's", n)
+	})
 	r.Replayer("sched", replayConcurrent) // cases of the concurrent part (cmd/c19c, see concurrent.go)
 	r.MaybeReplay()
 	conc := startConcurrent(r) // runs next to the sequential search, collected before Finish
@@ -718,7 +729,7 @@ func main() {
 	r.Assume("model states (content, per handle the cache-filling events since its last write; h2/h3 interchangeable) are used only to deduplicate; every state's shortest path is replayed on a fresh store, wrapper and handles")
 	r.Assume("answers are compared as sequences of structural keys, error text and channel-closed flag")
 
-	levelPairs(r)
+	levelStoreOps(r, grid(1))
 
 	nopts := r.Pick(11, 20)
 	reads := grid(nopts)
@@ -891,6 +902,7 @@ func main() {
 	if capped {
 		r.SetCapped()
 	}
+	levelPairs(r) // after the search: under load the time budget goes to the search first
 	r.Set("states", states)
 	r.Set("transitions", transitions)
 	r.Set("transitions_into_new_states", newStateObs)
